@@ -182,7 +182,11 @@ def listOps : CrdtOps (ListCrdt Nat Nat) (ListOp Nat Nat) :=
     vSpec := fun U K op =>
       if ListSpec.wfB U then
         match op.dot with
-        | some d => "v=" ++ showValidation ((ListSpec.specClock K).validateOp d)
+        | some d =>
+          -- … and the accessors on the op's identifier are those of the specification state of the knowledge set (C12.state_eq_spec)
+          let sp := ListSpec.specState K
+          "v=" ++ showValidation ((ListSpec.specClock K).validateOp d) ++
+          " pid=" ++ showOptNat (sp.positionEntry op.id) ++ " gid=" ++ showOptNat (sp.get op.id)
         | none => ""
       else ""
     opDot := fun op => op.dot.map showDot
